@@ -141,6 +141,15 @@ CHECKS = {
         "against a single-thread reference.",
    note="Trusted: harness/exp_replay.c (stamps, digests, trial bodies), TLC, and that the OS plus forced plans produce representative schedules; no TSan.",
    technique="monitor-as-function TLA+ design model + trace validation + forced-schedule replay"),
+ "C15": dict(level="model_checking", design="DESIGN.md §4 C15",
+   text="TLC verifies on spec/Random.tla, for all histories of up to 7-8 calls on 2-3 threads, that the seeding/cache design (generator position, coin-flip "
+        "bit cache, gamma constant cache) makes results a function of seed and calls, and finds the violating history for each of three defective designs. "
+        "One history per distinct model state plus seeded long histories over all 38 sampling entry points run on real pthreads with canonical-twin "
+        "comparisons; TLC validates every recorded raw word against an executable TLA+ definition of splitmix64/sfc64 (spec/Sfc64.tla over 16-bit limbs, "
+        "spec/W64.tla) and every result against the first result for the same (seed, call sequence) (spec/RandomTrace.tla).",
+   note="Trusted: TLC and the Bitwise/Json modules; Sfc64.tla as transcription of the documented generator (splitmix64 test vector checked by an ASSUME); the "
+        "harness's logging of bit patterns; a 64-word search window per sampler call. Sampler formulas are not checked here (C16).",
+   technique="TLC model checking of the seeding/cache design + TLC trace validation against an executable TLA+ sfc64"),
 }
 NA = {}
 
